@@ -441,3 +441,54 @@ PROTO = 'core/wl/protocol.py'
 M('C07', 'c07-enum-path-first-component', [(PROTO, "    enum_interface_name = enum_name_parts[-2]", "    enum_interface_name = enum_name_parts[0] if len(enum_name_parts) == 2 else enum_name_parts[1]")], 'C07.6')
 M('C07', 'c07-enum-path-own-interface-only', [(PROTO, "    enum_interface_name = enum_name_parts[-2]", "    enum_interface_name = interface_name")], 'C07.6')
 V('C07', 'c07v-enum-path-rpartition', [(PROTO, "    enum_name_parts = [interface_name] + enum_path.split('.')\n    enum_interface_name = enum_name_parts[-2]\n    enum_name = enum_name_parts[-1]", "    qualifier, dot, enum_name = enum_path.rpartition('.')\n    enum_interface_name = qualifier.rpartition('.')[2] if dot else interface_name")])
+
+# ---- C05 ------------------------------------------------------------------------------------------
+MAT = 'core/matcher.py'
+M('C05', 'c05-args-item-needs-no-argument', [(MAT, "            if not found_match:\n                result = False\n                break", "            if found_match:\n                result = False\n                break")], 'C05.2')
+M('C05', 'c05-args-exclusions-skipped', [(MAT, "        if result:\n            for matcher in self.negative:\n                for arg in message:", "        if not result:\n            for matcher in self.negative:\n                for arg in message:")], 'C05.2')
+M('C05', 'c05-args-first-argument-only', [(MAT, "            for arg in message:\n                if matcher.matches(arg):\n                    found_match = True\n                    break", "            for arg in message[:1]:\n                if matcher.matches(arg):\n                    found_match = True\n                    break")], 'C05.2')
+M('C05', 'c05-list-exclusion-ignored', [(MAT, "                if matcher.matches(message):\n                    result = False\n                    break", "                if matcher.matches(message):\n                    break")], 'C05.1')
+M('C05', 'c05-int-matcher-drops-fd', [(MAT, "        if isinstance(arg, wl.Arg.Int) or isinstance(arg, wl.Arg.Float) or isinstance(arg, wl.Arg.Fd):", "        if isinstance(arg, wl.Arg.Int) or isinstance(arg, wl.Arg.Float):")], 'C05.4')
+M('C05', 'c05-object-matcher-on-strings', [(MAT, "        return isinstance(arg, wl.Arg.String) and self.wrapped.matches(arg.value)", "        return isinstance(arg, (wl.Arg.String, wl.Arg.Object)) and self.wrapped.matches(arg.value)")], 'C05.4')
+M('C05', 'c05-string-matcher-always', [(MAT, "        return isinstance(arg, wl.Arg.String) and self.wrapped.matches(arg.value)", "        return isinstance(arg, wl.Arg.String) or self.wrapped.matches(arg.value)")], 'C05.4')
+M('C05', 'c05-nil-mock-id', [(MAT, "            mock = wl.object.MockObject(id=0, type=arg.type)", "            mock = wl.object.MockObject(id=1, type=arg.type)")], 'C05.4')
+M('C05', 'c05-generation-default-one', [(MAT, "        generation = obj.generation if obj.generation is not None else 0", "        generation = obj.generation if obj.generation is not None else 1")], 'C05.4')
+M('C05', 'c05-conn-unknown-empty', [(MAT, "        name = conn.name() if conn is not None else 'unknown'", "        name = conn.name() if conn is not None else ''")], 'C05.4')
+M('C05', 'c05-name-matcher-on-type', [(MAT, "        return obj.type is not None and self.wrapped.matches(obj.type)", "        return obj.type is not None and self.wrapped.matches(str(obj.id))")], 'C05.4')
+M('C05', 'c05-star-only-prefix', [(MAT, "    elif '*' in pattern:\n        return WildcardMatcher(pattern)", "    elif pattern.endswith('*'):\n        return WildcardMatcher(pattern)")], 'C05.5')
+M('C05', 'c05-wildcard-unescaped', [(MAT, "        re_pattern = r'^' + re.escape(pattern).replace(r'\\*', '.*') + r'$'", "        re_pattern = r'^' + pattern.replace('*', '.*') + r'$'")], 'C05.5')
+M('C05', 'c05-wildcard-prefix-match', [(MAT, "        re_pattern = r'^' + re.escape(pattern).replace(r'\\*', '.*') + r'$'", "        re_pattern = r'^' + re.escape(pattern).replace(r'\\*', '.*')")], 'C05.5')
+M('C05', 'c05-brackets-wrong-subparser', [(MAT, "        return _parse_matcher_list(text, _parse_text_matcher)", "        return _parse_matcher_list(text, _parse_obj_matcher)")], 'C05.6')
+M('C05', 'c05-bang-halves-swapped', [(MAT, "            [sub_parser(i) for i in _split_on(bang_split[0], ',')],\n            [sub_parser(i) for i in _split_on(bang_split[1], ',')],", "            [sub_parser(i) for i in _split_on(bang_split[1], ',')],\n            [sub_parser(i) for i in _split_on(bang_split[0], ',')],")], 'C05.6')
+M('C05', 'c05-name-and-object-swapped', [(MAT, "        _parse_obj_matcher(obj_text),\n        _parse_text_matcher(name_text),", "        _parse_obj_matcher(name_text),\n        _parse_text_matcher(obj_text),")], 'C05.6')
+M('C05', 'c05-arg-name-value-swapped', [(MAT, "        name_matcher = _parse_text_matcher(eq_split[0])\n        value_text = eq_split[1]", "        name_matcher = _parse_text_matcher(eq_split[1])\n        value_text = eq_split[0]")], 'C05.6')
+M('C05', 'c05-parse-keeps-blanks', [(MAT, "    text = no_color(text).strip()\n    if text == '':\n        raise RuntimeError('No matcher given')", "    text = no_color(text)\n    if text == '':\n        raise RuntimeError('No matcher given')")], 'C05.6')
+M('C05', 'c05-pieces-not-stripped', [(MAT, "            result.append(text[section_start:i].strip())", "            result.append(text[section_start:i])")], 'C05.6')
+M('C05', 'c05-never-is-always', [(MAT, "never: Matcher[Any] = AlwaysMatcher(False)", "never: Matcher[Any] = AlwaysMatcher(True)")], 'C05.3')
+M('C05', 'c05-destroyed-flag-from-new', [(MAT, "        self.match_destroyed = self.name_matcher.matches('destroyed') and self.args_matcher.matches(())", "        self.match_destroyed = self.name_matcher.matches('new') and self.args_matcher.matches(())")], 'C05.1')
+V('C05', 'c05v-args-any-all', [(MAT, """        result = True
+        for matcher in self.positive:
+            found_match = False
+            for arg in message:
+                if matcher.matches(arg):
+                    found_match = True
+                    break
+            if not found_match:
+                result = False
+                break
+        if result:
+            for matcher in self.negative:
+                for arg in message:
+                    if matcher.matches(arg):
+                        result = False
+                        break
+        return result""", """        for matcher in self.positive:
+            if not any(matcher.matches(arg) for arg in message):
+                return False
+        for matcher in self.negative:
+            for arg in message:
+                if matcher.matches(arg):
+                    return False
+        return True""")])
+V('C05', 'c05v-string-matcher-if', [(MAT, "        return isinstance(arg, wl.Arg.String) and self.wrapped.matches(arg.value)", "        if not isinstance(arg, wl.Arg.String):\n            return False\n        return self.wrapped.matches(arg.value)")])
+V('C05', 'c05v-wildcard-fullmatch', [(MAT, "        re_pattern = r'^' + re.escape(pattern).replace(r'\\*', '.*') + r'$'", "        re_pattern = re.escape(pattern).replace(r'\\*', '.*')"), (MAT, "        return len(self.regex.findall(text)) > 0", "        return self.regex.fullmatch(text) is not None")])
